@@ -171,10 +171,19 @@ impl NameMap {
             let mut name_to_symbol_vec = Vec::from_iter(scope.1.iter());
             name_to_symbol_vec.sort_by(|l, r| String::cmp(l.0, r.0));
 
+            // Claim the names that can be used unchanged before generating any name
+            // Otherwise a name generated for an earlier symbol could take the name of a later symbol
+            let mut kept_names = HashSet::new();
+            for (name, symbols) in &name_to_symbol_vec {
+                if symbols.len() == 1 && used_names.insert((*name).clone()) {
+                    kept_names.insert(*name);
+                }
+            }
+
             for (name, symbols) in name_to_symbol_vec {
                 for symbol in symbols {
                     // Assign a name
-                    let name = if symbols.len() == 1 && used_names.insert(name.clone()) {
+                    let name = if kept_names.contains(name) {
                         // If there are no duplicate names and the direct name is free then use that
                         name.clone()
                     } else {
